@@ -1,3 +1,317 @@
+import Bch.Proofs.Merkle
+/-
+C12 — merkle proof extraction is sound against malformed or malicious messages.
+All theorems are about the model's own `traverse` / `extractMsg` (Bch/Model/Merkle.lean). `extractP` is the
+parser-style twin (Bch/Proofs/Merkle.lean) that aborts at the first fault; `C12_traverse_eq_parser` ties it to
+the Go-shaped cursor/latch traversal.
+-/
 namespace Bch.Props.C12
-theorem placeholder : True := trivial
+open Bch.Model.Merkle Bch.Proofs.Merkle
+
+variable {H : Type} [DecidableEq H]
+
+/-- **`traverse` = parser.** From the initial state, on any bit / hash streams and any node:
+* if the parser succeeds, `traverse` returns the same node hash, the same matches, cursors pointing exactly at the
+  parser's unconsumed suffixes, and `bad = false`;
+* if the parser fails (out of bits, out of hashes, or an inner node with two equal children), `traverse` — which
+  keeps going — ends with `bad = true`. -/
+theorem C12_traverse_eq_parser (comb : H → H → H) (zero : H) (n : Nat) (bits : List Bool) (hashes : List H)
+    (h pos : Nat) :
+    (∀ r ms bs' hs', extractP comb n h pos bits hashes = .ok (r, ms, bs', hs') →
+      traverse comb zero n bits.toArray hashes.toArray h pos {} =
+        (r, { bitsUsed := bits.length - bs'.length, hashesUsed := hashes.length - hs'.length, bad := false,
+              matchedHashes := ms.map Prod.snd, matchedItems := ms.map Prod.fst }) ∧
+      bs'.length < bits.length ∧ hs'.length ≤ hashes.length ∧
+      bs' = bits.drop (bits.length - bs'.length) ∧ hs' = hashes.drop (hashes.length - hs'.length)) ∧
+    (∀ e, extractP comb n h pos bits hashes = .error e →
+      (traverse comb zero n bits.toArray hashes.toArray h pos {}).2.bad = true) :=
+  ⟨fun _ _ _ _ he => traverse_init_ok comb zero n bits hashes he,
+   fun _ he => traverse_init_error comb zero n bits hashes he⟩
+
+/-- the same from an arbitrary in-range cursor state (the form used inside the recursion): success advances the
+cursors, appends the matches and leaves the latch as it was. -/
+theorem C12_traverse_eq_parser_from (comb : H → H → H) (zero : H) (n : Nat) (bits : List Bool)
+    (hashes : List H) (h pos : Nat) (st : Ext H) :
+    (∀ r ms bs' hs',
+      extractP comb n h pos (bits.drop st.bitsUsed) (hashes.drop st.hashesUsed) = .ok (r, ms, bs', hs') →
+      ∃ bu hu, st.bitsUsed < bu ∧ bu ≤ bits.length ∧ st.hashesUsed ≤ hu ∧ hu ≤ hashes.length ∧
+        bs' = bits.drop bu ∧ hs' = hashes.drop hu ∧
+        traverse comb zero n bits.toArray hashes.toArray h pos st =
+          (r, { bitsUsed := bu, hashesUsed := hu, bad := st.bad,
+                matchedHashes := st.matchedHashes ++ ms.map Prod.snd,
+                matchedItems := st.matchedItems ++ ms.map Prod.fst })) ∧
+    (∀ e, extractP comb n h pos (bits.drop st.bitsUsed) (hashes.drop st.hashesUsed) = .error e →
+      (traverse comb zero n bits.toArray hashes.toArray h pos st).2.bad = true) ∧
+    (st.bad = true → (traverse comb zero n bits.toArray hashes.toArray h pos st).2.bad = true) :=
+  ⟨fun r ms bs' hs' he => traverse_of_extractP_ok comb zero n bits hashes h pos st r ms bs' hs' he,
+   fun e he => traverse_of_extractP_error comb zero n bits hashes h pos st e he,
+   traverse_bad_mono comb zero n _ _ h pos st⟩
+
+/-- `bad` is latched (from the initial state) iff the parser fails. -/
+theorem C12_bad_iff (comb : H → H → H) (zero : H) (n : Nat) (bits : List Bool) (hashes : List H)
+    (h pos : Nat) :
+    (traverse comb zero n bits.toArray hashes.toArray h pos {}).2.bad = true ↔
+      ∃ e, extractP comb n h pos bits hashes = .error e := by
+  cases he : extractP comb n h pos bits hashes with
+  | error e => exact ⟨fun _ => ⟨e, rfl⟩, fun _ => traverse_init_error comb zero n bits hashes he⟩
+  | ok v =>
+    obtain ⟨r, ms, bs', hs'⟩ := v
+    have := (traverse_init_ok comb zero n bits hashes he).1
+    rw [this]
+    simp
+
+/-- **Exact acceptance condition.** `extractMsg` returns root `r` iff the four sanity checks pass and the parser,
+run on the unpacked flag bits and the hashes from the root node, succeeds with root `r`, consumes all hashes and
+leaves fewer than 8 bits (no whole unused flag byte); the reported items / matches are then the parser's. -/
+theorem C12_accept_iff (comb : H → H → H) (zero : H) (msg : Msg H) (r : H) :
+    (extractMsg comb zero msg).root = some r ↔
+      msg.numTx ≠ 0 ∧ msg.numTx ≤ maxTxnCount ∧ msg.hashes.length ≤ msg.numTx ∧
+      msg.hashes.length ≤ 8 * msg.flags.length ∧
+      ∃ ms bs', extractP comb msg.numTx (height msg.numTx) 0 (unpackFlags msg.flags) msg.hashes
+          = .ok (r, ms, bs', []) ∧ bs'.length < 8 ∧
+        (extractMsg comb zero msg).items = ms.map Prod.fst ∧
+        (extractMsg comb zero msg).matches_ = ms.map Prod.snd ∧
+        (extractMsg comb zero msg).bad = false := by
+  constructor
+  · intro hr
+    obtain ⟨hpre, -, -, -, -⟩ := extractMsg_root_some comb zero msg hr
+    obtain ⟨p1, p2, p3, p4⟩ := id hpre
+    rw [unpackFlags_length] at p4
+    refine ⟨p1, p2, p3, p4, ?_⟩
+    cases he : extractP comb msg.numTx (height msg.numTx) 0 (unpackFlags msg.flags) msg.hashes with
+    | error e =>
+      have := (extractMsg_of_error comb zero msg hpre he).1
+      rw [this] at hr; cases hr
+    | ok v =>
+      obtain ⟨r', ms, bs', hs'⟩ := v
+      have hx := extractMsg_of_ok comb zero msg hpre he
+      rw [hx] at hr ⊢
+      dsimp only at hr ⊢
+      split at hr
+      · rename_i hc
+        obtain ⟨c1, rfl⟩ := hc
+        cases hr
+        exact ⟨ms, bs', rfl, c1, rfl, rfl, rfl⟩
+      · cases hr
+  · rintro ⟨p1, p2, p3, p4, ms, bs', he, hlt, -⟩
+    have hpre : PreOK msg := ⟨p1, p2, p3, by rw [unpackFlags_length]; exact p4⟩
+    rw [extractMsg_of_ok comb zero msg hpre he]
+    simp [hlt]
+
+/-- **Soundness (headline).** If `extractMsg` returns a root `r`, then the reported positions and hashes are in
+one-to-one correspondence, positions are strictly increasing and `< numTx`, and for each reported `(pos, x)` there
+is an explicit merkle branch `br` of length `height numTx` with `foldBranch comb numTx pos x br = r`, where
+`foldBranch` pairs a node with itself exactly where `width` says it has no right sibling. -/
+theorem C12_sound (comb : H → H → H) (zero : H) (msg : Msg H) (r : H)
+    (hr : (extractMsg comb zero msg).root = some r) :
+    (extractMsg comb zero msg).items.length = (extractMsg comb zero msg).matches_.length ∧
+    (extractMsg comb zero msg).items.Pairwise (· < ·) ∧
+    (∀ p ∈ (extractMsg comb zero msg).items, p < msg.numTx) ∧
+    (∀ px ∈ List.zip (extractMsg comb zero msg).items (extractMsg comb zero msg).matches_,
+      ∃ br : List H, br.length = height msg.numTx ∧ foldBranch comb msg.numTx px.1 px.2 br = r) := by
+  obtain ⟨p1, -, -, -, ms, bs', he, -, hi, hm, -⟩ := (C12_accept_iff comb zero msg r).1 hr
+  have hw : 0 < width msg.numTx (height msg.numTx) := width_pos (by omega) _
+  obtain ⟨s, pw⟩ := extractP_sound comb msg.numTx _ _ _ _ _ _ _ _ hw he
+  rw [hi, hm]
+  refine ⟨by simp, ?_, ?_, ?_⟩
+  · rw [List.pairwise_map]; exact pw
+  · intro p hp
+    obtain ⟨⟨p', x⟩, hmem, rfl⟩ := List.mem_map.1 hp
+    exact (s p' x hmem).2.1
+  · intro px hpx
+    have : px ∈ ms := by
+      rw [List.zip_map_left, List.zip_map_right] at hpx
+      obtain ⟨⟨a, b⟩, hab, rfl⟩ := List.mem_map.1 hpx
+      obtain ⟨⟨a1, a2⟩, hab', hh⟩ := List.mem_map.1 hab
+      have := List.of_mem_zip hab'
+      simp only [Prod.map] at hh
+      cases hh
+      rcases a1 with ⟨u, v⟩
+      have hz : ∀ (l : List (Nat × H)) q, q ∈ l.zip l → q.1 = q.2 := by
+        intro l
+        induction l with
+        | nil => intro q hq; cases hq
+        | cons c l ih =>
+          intro q hq
+          rw [List.zip_cons_cons, List.mem_cons] at hq
+          rcases hq with rfl | hq
+          · rfl
+          · exact ih q hq
+      have := hz ms _ hab'
+      simp only at this
+      subst this
+      exact (List.of_mem_zip hab').1
+    obtain ⟨-, -, br, hl, hf⟩ := s px.1 px.2 this
+    exact ⟨br, hl, hf⟩
+
+omit [DecidableEq H] in
+/-- **`foldBranch` is the real merkle-branch evaluation**: for an honest tree over `leaves`, folding the branch of
+sibling hashes of any real leaf `p` gives the merkle root `calcHash … (height n) 0` (so the witness in
+`C12_sound` is a merkle proof in the usual sense, not an artefact of the definition). -/
+theorem C12_foldBranch_honest (comb : H → H → H) (leaves : Nat → H) (n p : Nat)
+    (h1 : 1 ≤ n) (h2 : n ≤ 2^33) (hp : p < n) :
+    (honestBranch comb leaves n (height n) p).length = height n ∧
+    foldBranch comb n p (leaves p) (honestBranch comb leaves n (height n) p) =
+      calcHash comb leaves n (height n) 0 := by
+  refine ⟨honestBranch_length comb leaves n _ p, ?_⟩
+  rw [foldBranch_honest comb leaves n (height n) p hp]
+  have := (width_le_one_iff n (height n)).1 (Nat.le_of_eq (width_height h1 h2))
+  rw [Nat.div_eq_of_lt (by omega)]
+
+/-! ### rejection rules: each implies `root = none` -/
+
+/-- declared transaction count zero -/
+theorem C12_rejects_numTx_zero (comb : H → H → H) (zero : H) (msg : Msg H) (h : msg.numTx = 0) :
+    (extractMsg comb zero msg).root = none := by
+  rw [extractMsg_of_not_pre comb zero msg (fun hp => hp.1 h)]
+
+/-- declared transaction count above `maxTxnCount` -/
+theorem C12_rejects_numTx_too_big (comb : H → H → H) (zero : H) (msg : Msg H)
+    (h : msg.numTx > maxTxnCount) : (extractMsg comb zero msg).root = none := by
+  rw [extractMsg_of_not_pre comb zero msg (fun hp => by have := hp.2.1; omega)]
+
+/-- more hashes than transactions -/
+theorem C12_rejects_too_many_hashes (comb : H → H → H) (zero : H) (msg : Msg H)
+    (h : msg.hashes.length > msg.numTx) : (extractMsg comb zero msg).root = none := by
+  rw [extractMsg_of_not_pre comb zero msg (fun hp => by have := hp.2.2.1; omega)]
+
+/-- fewer flag bits (8 per flag byte) than hashes -/
+theorem C12_rejects_fewer_bits_than_hashes (comb : H → H → H) (zero : H) (msg : Msg H)
+    (h : 8 * msg.flags.length < msg.hashes.length) : (extractMsg comb zero msg).root = none := by
+  rw [extractMsg_of_not_pre comb zero msg
+    (fun hp => by have := hp.2.2.2; rw [unpackFlags_length] at this; omega)]
+
+/-- the failure latch: whenever `traverse` ends with `bad = true` no root is returned -/
+theorem C12_rejects_bad (comb : H → H → H) (zero : H) (msg : Msg H)
+    (h : (traverse comb zero msg.numTx (unpackFlags msg.flags).toArray msg.hashes.toArray
+            (height msg.numTx) 0 {}).2.bad = true) :
+    (extractMsg comb zero msg).root = none := by
+  cases hr : (extractMsg comb zero msg).root with
+  | none => rfl
+  | some r =>
+    have := (extractMsg_root_some comb zero msg hr).2.1
+    rw [h] at this; cases this
+
+/-- any parser fault (first fault in depth-first order) is a rejection, and sets `BadTree` once the sanity checks
+have passed -/
+theorem C12_rejects_fault (comb : H → H → H) (zero : H) (msg : Msg H) (e : Fault)
+    (h : extractP comb msg.numTx (height msg.numTx) 0 (unpackFlags msg.flags) msg.hashes = .error e) :
+    (extractMsg comb zero msg).root = none ∧ (PreOK msg → (extractMsg comb zero msg).bad = true) :=
+  ⟨C12_rejects_bad comb zero msg (traverse_init_error comb zero msg.numTx _ _ h),
+   fun hp => (extractMsg_of_error comb zero msg hp h).2⟩
+
+/-- running out of flag bits during the traversal -/
+theorem C12_rejects_out_of_bits (comb : H → H → H) (zero : H) (msg : Msg H)
+    (h : extractP comb msg.numTx (height msg.numTx) 0 (unpackFlags msg.flags) msg.hashes
+          = .error .outOfBits) : (extractMsg comb zero msg).root = none :=
+  (C12_rejects_fault comb zero msg _ h).1
+
+/-- running out of hashes during the traversal -/
+theorem C12_rejects_out_of_hashes (comb : H → H → H) (zero : H) (msg : Msg H)
+    (h : extractP comb msg.numTx (height msg.numTx) 0 (unpackFlags msg.flags) msg.hashes
+          = .error .outOfHashes) : (extractMsg comb zero msg).root = none :=
+  (C12_rejects_fault comb zero msg _ h).1
+
+/-- an inner node with two equal children (CVE-2012-2459) -/
+theorem C12_rejects_equal_children (comb : H → H → H) (zero : H) (msg : Msg H)
+    (h : extractP comb msg.numTx (height msg.numTx) 0 (unpackFlags msg.flags) msg.hashes
+          = .error .equalChildren) : (extractMsg comb zero msg).root = none :=
+  (C12_rejects_fault comb zero msg _ h).1
+
+/-- a hash left over after the traversal -/
+theorem C12_rejects_hash_left_over (comb : H → H → H) (zero : H) (msg : Msg H)
+    (h : (traverse comb zero msg.numTx (unpackFlags msg.flags).toArray msg.hashes.toArray
+            (height msg.numTx) 0 {}).2.hashesUsed ≠ msg.hashes.length) :
+    (extractMsg comb zero msg).root = none := by
+  cases hr : (extractMsg comb zero msg).root with
+  | none => rfl
+  | some r => exact absurd (extractMsg_root_some comb zero msg hr).2.2.2.1 h
+
+/-- a whole unused flag byte (8 or more bits not consumed) -/
+theorem C12_rejects_unused_flag_byte (comb : H → H → H) (zero : H) (msg : Msg H)
+    (h : (traverse comb zero msg.numTx (unpackFlags msg.flags).toArray msg.hashes.toArray
+            (height msg.numTx) 0 {}).2.bitsUsed + 8 ≤ 8 * msg.flags.length) :
+    (extractMsg comb zero msg).root = none := by
+  cases hr : (extractMsg comb zero msg).root with
+  | none => rfl
+  | some r =>
+    have := (extractMsg_root_some comb zero msg hr).2.2.1
+    rw [unpackFlags_length] at this
+    omega
+
+/-- parser-level forms of the two consumption rules: the parser succeeds but leaves a hash, or ≥ 8 bits -/
+theorem C12_rejects_leftover_parser (comb : H → H → H) (zero : H) (msg : Msg H) (r : H)
+    (ms : List (Nat × H)) (bs' : List Bool) (hs' : List H)
+    (he : extractP comb msg.numTx (height msg.numTx) 0 (unpackFlags msg.flags) msg.hashes
+          = .ok (r, ms, bs', hs'))
+    (h : hs' ≠ [] ∨ 8 ≤ bs'.length) : (extractMsg comb zero msg).root = none := by
+  by_cases hp : PreOK msg
+  · rw [extractMsg_of_ok comb zero msg hp he]
+    dsimp only
+    rw [if_neg]
+    rintro ⟨c1, c2⟩
+    rcases h with h | h
+    · exact h c2
+    · omega
+  · rw [extractMsg_of_not_pre comb zero msg hp]
+
+/-! ### non-vacuity (`H := Nat`, `exComb a b = 1000*a + b`) -/
+
+section Examples
+
+/-- an accepted 3-leaf message: leaf 1 matched; bits 1,1,0,1,0 = 0x0B; hashes = leaf0, leaf1, node(1,1) -/
+example : extractMsg exComb 0 ⟨3, [10, 11, 99], [0x0B]⟩ = ⟨some (exComb (exComb 10 11) 99), [11], [1], false⟩ := by
+  have hp : PreOK (H := Nat) ⟨3, [10, 11, 99], [0x0B]⟩ := by unfold PreOK; decide
+  rw [extractMsg_of_ok exComb 0 _ hp (r := exComb (exComb 10 11) 99) (ms := [(1, 11)])
+    (bs' := [false, false, false]) (hs' := []) rfl]
+  simp
+
+/-- the hypothesis of `C12_sound` is satisfiable, and the branch for the reported (1, 11) is `[10, 99]` -/
+example : (extractMsg exComb 0 ⟨3, [10, 11, 99], [0x0B]⟩).root = some (exComb (exComb 10 11) 99) ∧
+    foldBranch exComb 3 1 11 [10, 99] = exComb (exComb 10 11) 99 := by
+  refine ⟨?_, by decide⟩
+  rw [C12_accept_iff]
+  refine ⟨by decide, by decide, by decide, by decide, [(1, 11)], [false, false, false], rfl, by decide, ?_⟩
+  have hp : PreOK (H := Nat) ⟨3, [10, 11, 99], [0x0B]⟩ := by unfold PreOK; decide
+  rw [extractMsg_of_ok exComb 0 _ hp (r := exComb (exComb 10 11) 99) (ms := [(1, 11)])
+    (bs' := [false, false, false]) (hs' := []) rfl]
+  simp
+
+/-- a rejected duplicate-children message (CVE-2012-2459 shape): 2 leaves, both matched, equal hashes; the
+hypothesis of `C12_rejects_equal_children` holds for it -/
+example : extractP exComb 2 (height 2) 0 (unpackFlags [0x07]) [5, 5] = .error .equalChildren ∧
+    (extractMsg exComb 0 ⟨2, [5, 5], [0x07]⟩).root = none ∧
+    (extractMsg exComb 0 ⟨2, [5, 5], [0x07]⟩).bad = true := by
+  have he : extractP exComb 2 (height 2) 0 (unpackFlags [0x07]) [5, 5] = .error .equalChildren := rfl
+  have hp : PreOK (H := Nat) ⟨2, [5, 5], [0x07]⟩ := by unfold PreOK; decide
+  exact ⟨he, (C12_rejects_fault exComb 0 ⟨2, [5, 5], [0x07]⟩ _ he).1,
+    (C12_rejects_fault exComb 0 ⟨2, [5, 5], [0x07]⟩ _ he).2 hp⟩
+
+/-- the other faults are reachable too: out of bits (a 1-byte message cannot run out, so shown on a raw stream and
+on an 11-leaf message), out of hashes -/
+example : extractP exComb 3 (height 3) 0 [true, true] [10, 11, 99] = .error .outOfBits ∧
+    extractP exComb 3 (height 3) 0 (unpackFlags [0x0B]) [10, 11] = .error .outOfHashes ∧
+    extractP exComb 9 (height 9) 0 (unpackFlags [0xFF]) [1, 2, 3, 4, 5, 6, 7, 8, 9] = .error .outOfBits :=
+  ⟨rfl, rfl, rfl⟩
+
+/-- the consumption rules and sanity checks fire on concrete messages; a 1-leaf message is accepted -/
+example :
+    (extractMsg exComb 0 ⟨3, [10, 11, 99, 100], [0x0B]⟩).root = none ∧       -- more hashes than txs
+    (extractMsg exComb 0 ⟨3, [10, 11, 99], [0x0B, 0x00]⟩).root = none ∧     -- a whole unused flag byte
+    (extractMsg exComb 0 ⟨3, [10, 11, 99], [0x01]⟩).root = none ∧           -- a hash left over
+    (extractMsg exComb 0 ⟨0, [], []⟩).root = none ∧
+    (extractMsg exComb 0 ⟨maxTxnCount + 1, [7], [0x00]⟩).root = none ∧
+    (extractMsg exComb 0 ⟨1, [7], [0x00]⟩).root = some 7 := by
+  refine ⟨C12_rejects_too_many_hashes _ _ _ (by decide), ?_, ?_, C12_rejects_numTx_zero _ _ _ rfl,
+    C12_rejects_numTx_too_big _ _ _ (by decide), ?_⟩
+  · exact C12_rejects_leftover_parser exComb 0 ⟨3, [10, 11, 99], [0x0B, 0x00]⟩ _ [(1, 11)]
+      (List.replicate 11 false) [] rfl (Or.inr (by decide))
+  · exact C12_rejects_leftover_parser exComb 0 ⟨3, [10, 11, 99], [0x01]⟩ (exComb 10 11) []
+      [false, false, false, false, false] [99] rfl (Or.inl (by decide))
+  · have hp : PreOK (H := Nat) ⟨1, [7], [0x00]⟩ := by unfold PreOK; decide
+    rw [extractMsg_of_ok exComb 0 _ hp (r := 7) (ms := []) (bs' := List.replicate 7 false) (hs' := []) rfl]
+    simp
+
+end Examples
+
 end Bch.Props.C12
